@@ -141,6 +141,9 @@ def parse_go(line):
     return ("ok", files, [x for x in d.split("\x1f") if x])
 
 
+SCANNER_DIAG = re.compile(r"^frundis:[^ ]")       # "frundis:<file>:<line>:<col>: ..." (the processor writes "frundis: <file>:...")
+
+
 def parse_model(line):
     if line.startswith("PANIC"):
         m = decode_runes(line[6:])
@@ -192,9 +195,12 @@ def compare(case, go, model):
                 if k in a[1] and k in b[1] and norm_nondet(dec(a[1][k])) == dec(b[1][k]):
                     continue        # random EPUB identifier / modification time when epub-uuid is unset (excluded by C18 itself)
                 return "output file %r differs" % dec(k)
-    if len(a[2]) != len(b[2]):
-        return "number of diagnostics %d vs %d" % (len(a[2]), len(b[2]))
-    for x, y in zip(a[2], b[2]):
+    # scanner diagnostics (unknown escape, unterminated quoted argument, ...) are not modelled: the model's
+    # diagnostics are the processor's; they still count for "quiet" on the implementation side (oracles)
+    ga = [x for x in a[2] if not SCANNER_DIAG.match(x)]
+    if len(ga) != len(b[2]):
+        return "number of diagnostics %d vs %d" % (len(ga), len(b[2]))
+    for x, y in zip(ga, b[2]):
         if not diag_matches(x, y):
             return "diagnostic %r vs %r" % (x[:80], y)
     return None
@@ -205,8 +211,20 @@ class E2EStream(Stream):
         import time
         from common import run_parallel, HARNESS, DRIVER, Broken
         t0 = time.time()
-        rc1, self.go, e1 = run_parallel(HARNESS, "e2e", self.cases, jobs=12, resilient=True)
-        rc2, self.model, e2 = run_parallel(DRIVER, "e2e", self.cases, jobs=12)
+        small = len(self.cases) < 2000
+        import concurrent.futures as cf
+        if small and len(self.cases) > 12:
+            # few but possibly heavy cases: one shard per worker all the same
+            from common import chunks, run_resilient, run_lines
+            parts = chunks(self.cases, 12)
+            with cf.ThreadPoolExecutor(max_workers=12) as ex:
+                rg = list(ex.map(lambda p: run_resilient(HARNESS, "e2e", p), parts))
+                rm = list(ex.map(lambda p: run_lines(DRIVER, "e2e", p), parts))
+            rc1, self.go, e1 = 0, [l for r in rg for l in r[1]], "".join(r[2] for r in rg)
+            rc2, self.model, e2 = 0, [l for r in rm for l in r[1]], "".join(r[2] for r in rm)
+        else:
+            rc1, self.go, e1 = run_parallel(HARNESS, "e2e", self.cases, jobs=12, resilient=True)
+            rc2, self.model, e2 = run_parallel(DRIVER, "e2e", self.cases, jobs=12)
         if len(self.go) != len(self.cases):
             raise Broken("stream %s: implementation harness produced %d lines for %d cases (rc=%d)" % (self.name, len(self.go), len(self.cases), rc1), e1[-2000:])
         if len(self.model) != len(self.cases):
@@ -223,6 +241,19 @@ class E2EStream(Stream):
                 if r:
                     self.oracle_hits.append((i, r))
         self.wall = round(time.time() - t0, 2)
+
+
+RAW = re.compile(r"^\.\s*(Ft|Bf|#run)\b|-as-is|^\.\s*X\s+ftag", re.M)
+
+
+def raw_free(case):
+    """the document uses no raw pass-through feature (Ft, Bf, If -as-is, #run, filters)"""
+    parts = case.split(" | ")
+    docs = [decode_runes(parts[0].split(" ", 1)[1]) if " " in parts[0] else ""]
+    for p in parts[1:]:
+        if p.startswith("F ") and "=" in p:
+            docs.append(decode_runes(p.split("=", 1)[1]))
+    return not any(RAW.search(d) for d in docs)
 
 
 def show_case(case):
